@@ -754,3 +754,55 @@ def r7(rr, repo):
         data_end = not any('metrics' in U(t) for n in ast.walk(mq_init) if isinstance(n, ast.Assign) and any(x is c for x in ast.walk(n.value)) for t in n.targets)
         if data_end:
             rr.ob(f'MQ passes its exit-message handler to the {U(c.func)} it builds', any('on_exit_msg' in p or 'message_oob' in p or 'oob' in p for p in passed), mqm, c, witness=', '.join(passed)[:160], key=f'handler-passed|{U(c.func)}')
+
+
+@rule('C08.R8', "the exit_after deadline is one kind of quantity everywhere: Filter.init stores an ABSOLUTE wall-clock time for every accepted form - now + seconds for a number or a '[[[d:]h:]m:]s' text (whose fields are "
+                "weighted 86400 / 3600 / 60 / 1, rightmost field = seconds), the parsed date/time's timestamp for the '@' form, None for no deadline - and loop_once compares it with the same clock")
+def r8(rr, repo):
+    mod, init = repo.find(f'{FILTER}::Filter.init')
+    _, lo = repo.find(f'{FILTER}::Filter.loop_once')
+    stores = [n for n in walk_scope(init) if isinstance(n, ast.Assign) and any(U(t) == 'self.exit_after_t' for t in n.targets)]
+    rr.floor('stores of the exit_after deadline in Filter.init', len(stores), 3, mod, init)
+    kinds = set()
+    clock = None
+    for st in stores:
+        v = st.value
+        if isinstance(v, ast.Constant) and v.value is None:
+            kinds.add('none')
+        elif isinstance(v, ast.BinOp) and isinstance(v.op, ast.Add) and any(isinstance(x, ast.Call) and U(x.func) in ('time.time', 'time') and not x.args for x in (v.left, v.right)):
+            kinds.add('now+interval')
+            clock = U([x for x in (v.left, v.right) if isinstance(x, ast.Call)][0].func)
+            other = v.right if isinstance(v.left, ast.Call) else v.left
+            rr.ob('the relative forms are added to the current time', U(other) == 'exit_after', mod, st, witness=U(v)[:80], key='deadline-relative')
+        elif isinstance(v, ast.Call) and isinstance(v.func, ast.Attribute) and v.func.attr == 'timestamp':
+            kinds.add('absolute')
+            inner = [c for c in ast.walk(v) if isinstance(c, ast.Call) and U(c.func) == 'parse_date_and_or_time']
+            okabs = len(inner) == 1 and isinstance(inner[0].args[0], ast.Subscript) and isinstance(inner[0].args[0].slice, ast.Slice) and U(inner[0].args[0].slice.lower) == '1' and inner[0].args[0].slice.upper is None
+            rr.ob("the '@' form is the timestamp of the parsed date / time with the '@' cut off", okabs, mod, st, witness=U(v)[:100], key='deadline-absolute')
+        else:
+            rr.unresolved('a store of the exit_after deadline has a form this rule does not know', mod, st, witness=U(v)[:100], key='deadline-form')
+    rr.ob('Filter.init has a store for no deadline, for the relative forms and for the absolute form', kinds >= {'none', 'now+interval', 'absolute'}, mod, init, witness=str(sorted(kinds)), key='deadline-forms')
+    # the relative branch is taken for numbers and for texts that do not start with '@', after parse_time_interval
+    rel = [st for st in stores if isinstance(st.value, ast.BinOp)]
+    for st in rel:
+        g = [U(t) for t, pol in q.guards_of(st, stop=init) if pol]
+        okg = any('isinstance(exit_after, (int, float))' in t and "startswith('@')" in t and 'parse_time_interval(exit_after)' in t for t in g)
+        rr.ob("numbers are taken as seconds, other texts go through parse_time_interval unless they start with '@'", okg, mod, st, witness=' && '.join(g)[-200:], key='deadline-relative-guard')
+    # loop_once compares with the same clock
+    cmp_ = [c for c in ast.walk(lo) if isinstance(c, ast.Compare) and 'exit_after_t' in U(c) and len(c.ops) == 1]
+    okc = any(isinstance(c.ops[0], (ast.GtE, ast.Gt)) and isinstance(c.left, ast.Call) and U(c.left.func) in ('time.time', 'time') and 'exit_after_t' in U(c.comparators[0]) for c in cmp_) or \
+        any(isinstance(c.ops[0], (ast.LtE, ast.Lt)) and 'exit_after_t' in U(c.left) and isinstance(c.comparators[0], ast.Call) and U(c.comparators[0].func) in ('time.time', 'time') for c in cmp_)
+    rr.ob('loop_once ends the filter once the current wall-clock time has reached the deadline', okc, mod, cmp_[0] if cmp_ else lo, witness='; '.join(U(c) for c in cmp_)[:120] or 'no comparison', key='deadline-compared')
+    # the interval text: fields weighted days / hours / minutes / seconds, rightmost = seconds
+    UTL_ = 'openfilter/filter_runtime/utils.py'
+    um, pti = repo.find(f'{UTL_}::parse_time_interval')
+    def folded(e):
+        try:
+            return q.fold(e, {})
+        except Exception:
+            return None
+    lists = [n for n in ast.walk(pti) if isinstance(n, ast.List) and len(n.elts) == 4 and all(isinstance(folded(e), (int, float)) for e in n.elts)]
+    weights = [folded(e) for e in lists[0].elts] if lists else None
+    rr.ob("the interval fields are weighted 86400, 3600, 60, 1 (days, hours, minutes, seconds)", weights == [86400, 3600, 60, 1], um, lists[0] if lists else pti, witness=str(weights), key='interval-weights')
+    last4 = any(isinstance(x, ast.Subscript) and isinstance(x.slice, ast.Slice) and U(x.slice.lower) == '-4' and x.slice.upper is None for x in ast.walk(pti))
+    rr.ob("missing leading fields count as 0 and the rightmost field is the seconds (the text is left-padded and its LAST four fields are taken)", last4 and "'0:0:0:' + text" in U(pti), um, pti, key='interval-right-aligned')
